@@ -396,8 +396,12 @@ func main() {
 	defer out.Flush()
 	r := gen.New()
 	thorough := gen.Thorough()
-	if os.Getenv("VERIF_C02_ONLY") == "unkcodec" {
+	switch os.Getenv("VERIF_C02_ONLY") {
+	case "unkcodec":
 		unkCodecCases()
+		return
+	case "oore":
+		ooreCases()
 		return
 	}
 	corpus()
@@ -452,6 +456,7 @@ func main() {
 	growCases(thorough)
 	chunkCases(thorough)
 	unkCodecCases()
+	ooreCases()
 	expiredCases(r, thorough)
 	readerCases(r, thorough)
 }
